@@ -29,15 +29,16 @@ class _Index(object):
             raise ValueError(name + ".from_cupy() can only accept CuPy Arrays!" + _fn(198)
                              + " (akext: CUDA is not available in this sandbox)")
         elif module.startswith("jax."):
-            array = self._from_jax_array(anyarray)
+            self._from_jax_array(anyarray)
             return
         # py::array_t<T, c_style | forcecast>
         array = numpy.asarray(anyarray, dtype=self._dtype, order="C")
         if type(array) is not numpy.ndarray:
             array = array.view(numpy.ndarray)
-        if array.ndim != 1:
+        info = memoryview(array)        # array.request(): the buffer interface normalizes strides of contiguous arrays
+        if info.ndim != 1:
             raise ValueError(name + " must be built from a one-dimensional array; try array.ravel()" + _fn(263))
-        if array.strides[0] != array.itemsize:
+        if info.strides[0] != info.itemsize:
             raise ValueError(name + " must be built from a contiguous array (array.strides == (array.itemsize,)); "
                              "try array.copy()" + _fn(269))
         self._h = _lib.ptr(_lib.L.akp_index_wrap(self._kind, array.ctypes.data, array.shape[0], id(array)))
@@ -47,9 +48,10 @@ class _Index(object):
         device = array.device_buffer.device().platform
         if device == "cpu":
             jax_array = numpy.asarray(array, dtype=self._dtype, order="C")
-            if jax_array.ndim != 1:
+            info = memoryview(jax_array)
+            if info.ndim != 1:
                 raise ValueError(name + " must be built from a one-dimensional array; try array.ravel()" + _fn(213))
-            if jax_array.strides[0] != jax_array.itemsize:
+            if info.strides[0] != info.itemsize:
                 raise ValueError(name + " must be built from a contiguous array (array.strides == "
                                  "(array.itemsize,)); try array.copy()" + _fn(219))
             # the binding keeps `array` (the JAX object) alive, not the NumPy view
@@ -79,13 +81,14 @@ class _Index(object):
         _lib.rc(_lib.L.akp_index_raw(self._h, byref(base), byref(offset), byref(length)))
         return (base.value or 0), offset.value, length.value
 
-    def _view(self):
+    def _view(self, own=True):
         base, offset, length = self._raw()
         itemsize = numpy.dtype(self._dtype).itemsize
-        return _mem.view(self, base + offset * itemsize if base else 0, (length,), (itemsize,), self._dtype)
+        return _mem.view(self if own else None, base + offset * itemsize if base else 0, (length,), (itemsize,),
+                         self._dtype)
 
     def __buffer__(self, flags):
-        return memoryview(self._view())
+        return memoryview(self._view(False))
 
     # ---- methods of the binding
     @property
